@@ -92,10 +92,29 @@ def run(ck, F):
                 from_base = bool(src) and all("fields" in o.fields() for o in src)
                 if from_base:
                     copies.append((bb, t))
+    if FL is None:
+        # the list is a local that is returned: `fields = base.fields.clone();` (an assignment of the copy) is the copy as well
+        for bb, t in B.calls():
+            d = M.Body.callee_decl(t) or ""
+            if not d.endswith(("clone::Clone::clone", "[T]>::to_vec", "borrow::ToOwned::to_owned")) or not t.get("args") or t.get("dest") is None:
+                continue
+            src = M.trace(B, t["args"][0], M.IDENTITY_CALLS)
+            if not (src and all("fields" in o.fields() for o in src)):
+                continue
+            dl = t["dest"]["l"]
+            lands = dl if B.local_ty(dl).replace("alloc::", "std::") == "std::vec::Vec<model::field::Field>" and B.local_name(dl) else None
+            for i_ in sorted(B.reach):
+                for st in B.blocks[i_]["stmts"]:
+                    if st["k"] == "assign" and st["rv"].get("k") == "use" and st["rv"]["op"].get("k") in ("copy", "move") and st["rv"]["op"]["p"]["l"] == dl \
+                            and not st["p"].get("proj") and B.local_ty(st["p"]["l"]).replace("alloc::", "std::") == "std::vec::Vec<model::field::Field>":
+                        lands = st["p"]["l"]
+            if lands is not None and not B.is_arg(lands):
+                copies.append((bb, t))
     appends = []
     for bb, t in B.calls():
         d = M.Body.callee(t) or ""
-        if any(d.endswith(a) for a in APPENDERS) and (bb, t) not in copies:
+        d2 = M.Body.callee_decl(t) or ""
+        if (any(d.endswith(a) for a in APPENDERS) or any(d2.endswith(a) for a in VEC_APPENDS)) and (bb, t) not in copies:
             for a in t["args"]:
                 os_ = M.trace(B, a, ())
                 if is_field_list(os_, a):
